@@ -121,6 +121,7 @@ Definition run_case (t : tree) : tree :=
   | T 6 [sh; fl; small] =>
       T 0 [zs (unbroadcast_shape (to_zs sh) (to_bools fl)); zs (broadcast_back (to_zs sh) (to_bools fl) (to_zs small))]
   | T 7 [vals] => T 0 [zs (categories (to_zs vals)); zs (codes (to_zs vals))]
+  | T 8 [cats; vals] => zs (map (fun v => index_of v (to_zs cats)) (to_zs vals))
   (* reference models, used to tie Gen to Model by correspondence as well as by proof *)
   | T 12 [sh; cs] => enc_chunks (m_chunks (to_zs sh) (to_zs cs))
   | T 13 [s; T n _] => zs (slice_elems (dec_slice s) n)
